@@ -102,6 +102,10 @@ Inductive ev :=
 | Next                  (* the accessory's next frame is delivered *)
 | Next404               (* CoAP: the accessory's next response arrives with code 4.04 Not Found (post_bytes shuts the
                            context down and still decrypts the payload).  Not an event of the IP / BLE machines *)
+| NextBad               (* IP: the accessory's next frame arrives, opens, and the layer above raises on its plaintext
+                           (malformed status line, undecodable event body, unknown message kind): the exception
+                           leaves data_received AFTER a2c_counter was advanced and is fatal for the transport.
+                           Not an event of the BLE / CoAP machines *)
 | Replay (i : nat)      (* the genuine frame with nonce i of the current key is delivered *)
 | ReplayOld (i : nat)   (* the genuine frame with nonce i of the previous key epoch *)
 | Future (k : nat)      (* the accessory skipped k nonces: frame srv+k is delivered *)
@@ -155,6 +159,16 @@ Definition ip_deliver (s : ip) (f : frame) : ip :=
     end
   else ip_close (ip_setlog s (add_open [(x, false)] (i_log s))).
 
+(* a frame whose plaintext makes InsecureHomeKitProtocol.data_received raise: decrypted and counted, then the
+   exception closes the transport; no request is completed by it *)
+Definition ip_deliver_bad (s : ip) (f : frame) : ip :=
+  if i_closed s then s else
+  let x := ((i_ep s, A2C), i_a2c s) in
+  if opens x f then
+    ip_close (mkIp (i_ep s) (i_c2a s) (S (i_a2c s)) false (i_pend s) (i_srv s) (i_nreq s)
+                   (add_acc [x] (add_open [(x, true)] (i_log s))))
+  else ip_close (ip_setlog s (add_open [(x, false)] (i_log s))).
+
 Definition ip_deliver_at (s : ip) (i : nat) : ip :=
   ip_deliver (ip_setsrv s (Nat.max (i_srv s) (S i))) (Genuine ((i_ep s, A2C), i)).
 
@@ -181,6 +195,7 @@ Definition ip_step (s : ip) (e : ev) : ip :=
              (add_out ((i_ep s, i_nreq s, RCancel) :: outs (i_ep s) RFail (i_pend s))
                       (add_wire xs (add_seal xs (i_log s))))
   | SendW _ _ _ | Next404 => s
+  | NextBad => ip_deliver_bad (ip_setsrv s (S (i_srv s))) (Genuine ((i_ep s, A2C), i_srv s))
   | Next => ip_deliver_at s (i_srv s)
   | Replay i => ip_deliver_at s i
   | ReplayOld i =>
@@ -302,7 +317,7 @@ Definition ble_step (s : ble) (e : ev) : ble :=
   match e with
   | Send n cont => ble_send s n cont None
   | SendW n cont j => ble_send s n cont (Some j)
-  | Next404 | SendX _ => s
+  | Next404 | SendX _ | NextBad => s
   | Next => ble_deliver_at s (b_srv s)
   | Replay i => ble_deliver_at s i
   | ReplayOld i =>
@@ -449,7 +464,7 @@ Definition coap_step (s : coap) (e : ev) : coap :=
       | None => coap_drain (c_ep s) (c_send s) (c_recv s) (c_evt s) (c_alive s) (c_srv s) (c_esrv s)
                            (S (c_nreq s)) (c_log s) [c_nreq s]
       end
-  | SendW _ _ _ | SendX _ => s
+  | SendW _ _ _ | SendX _ | NextBad => s
   | Next => coap_response_at s (c_srv s) false
   | Next404 => coap_response_at s (c_srv s) true
   | Replay i => coap_response_at s i false
